@@ -65,7 +65,7 @@ REGISTRY = {
     },
     "C13": {
         "engine": "engine_deser",
-        "theorems": [(A + "UnionThm", "Api.C13_sequential"), (A + "UnionThm", "Api.C13_byType"), (A + "UnionThm", "Api.C13_byType_at"),
+        "theorems": [(A + "TryShapesThm", "Api.try_shapes"), (A + "UnionThm", "Api.C13_sequential"), (A + "UnionThm", "Api.C13_byType"), (A + "UnionThm", "Api.C13_byType_at"),
                      (A + "UnionThm", "Api.C13_byType_eq_sequential"), (A + "UnionThm", "Api.C13_optional"),
                      (A + "UnionThm", "Api.compile_byTypeSound"), (A + "UnionThm", "Api.C13_byType_unsound_float"),
                      (A + "UnionSelThm", "Api.union_accepts_at"), (A + "UnionSelThm", "Api.C01_accept_union"),
@@ -78,7 +78,7 @@ REGISTRY = {
     },
     "C14": {
         "engine": "engine_deser",
-        "theorems": [(A + "LitCoerceThm", "Api.tryLitClasses_perm"), (A + "LitCoerceThm", "Api.tryLitClasses_perm_unique"), (A + "LitCoerceThm", "Api.tryLitClasses_eq"), (A + "CoerceUnionThm", "Api.C14_monotoneU"), (A + "CoerceUnionThm", "Api.conforms_acceptedC"), (A + "CoerceThm", "Api.C14_monotone_partial"), (A + "CoerceThm", "Api.coerce_prim"), (A + "CoerceThm", "Api.coerce_instance"), (A + "CoerceThm", "Api.C14_coerce_table"), (A + "CoerceSrcThm", "Api.coerce_matches_source"), (A + "CoerceSrcThm", "Api.C14_source_table"),
+        "theorems": [(A + "TryShapesThm", "Api.try_shapes"), (A + "LitCoerceThm", "Api.tryLitClasses_perm"), (A + "LitCoerceThm", "Api.tryLitClasses_perm_unique"), (A + "LitCoerceThm", "Api.tryLitClasses_eq"), (A + "CoerceUnionThm", "Api.C14_monotoneU"), (A + "CoerceUnionThm", "Api.conforms_acceptedC"), (A + "CoerceThm", "Api.C14_monotone_partial"), (A + "CoerceThm", "Api.coerce_prim"), (A + "CoerceThm", "Api.coerce_instance"), (A + "CoerceThm", "Api.C14_coerce_table"), (A + "CoerceSrcThm", "Api.coerce_matches_source"), (A + "CoerceSrcThm", "Api.C14_source_table"),
                      (A + "CoerceThm", "Api.C14_union_witness_repaired"), (A + "TablesThm", "Api.Tables.C14_word_table")],
         "partial": "monotonicity proved on Ty.accU without uniqueItems (unions of any shape at any depth: C14_monotoneU, through `conforms`: whatever conforms is accepted "
                    "by the coerced tree) for good data; sets and field fall-back outside; equality of the results for union-free types and custom coercers are decided by "
